@@ -66,7 +66,7 @@ func c02n(tier string) int {
 	if tier == "thorough" {
 		return np*len(delimCfgs) + 600000
 	}
-	return np + 16000
+	return np + 40000
 }
 
 var c02lexRunRe = regexp.MustCompile(`\(\*lexer\)\.run`)
